@@ -72,7 +72,7 @@ where
 }
 //@@ end
 
-//@@ item src/deadline_support.rs :: ^pub fn deadline_exceeded rw=R0
+//@@ item src/deadline_support.rs :: ^pub fn deadline_exceeded rw=R0 cfgoff=similar_verif
 /*@*/ #[verifier::external_body]  // assumed contract: Instant::now() is not modelled; any answer is possible for Some(_)
 pub fn deadline_exceeded(deadline: Option<Instant>) -> (res: bool)
 /*@*/     ensures deadline is None ==> !res, dl_expired(deadline) ==> res,
